@@ -234,7 +234,9 @@ class Pdur(FilterPattern):  # Was Pfindur.
             if quant is not None:
                 delta = bi.roundup(elapsed, quant) - elapsed
                 if delta > 0:
-                    inevent = yield evt.silent(delta, inevent)
+                    outevent = evt.silent(delta, inevent)
+                    outevent['delta'] = delta  # Already stretched.
+                    inevent = yield outevent
         return inevent
 
     # storeArgs
